@@ -508,6 +508,7 @@ func run(c *core.Ctx) int {
 			c.Count("traces", int64(so.Traces))
 			c.Count("scan_bytes", so.ScanBytes)
 			c.Distinct("exec_plans", so.Plan)
+			c.Count("calls_slower_than_grace_period_but_returned_during_control", int64(so.SlowCalls))
 			if so.Needles < minNeedles {
 				minNeedles = so.Needles
 			}
